@@ -22,13 +22,15 @@ var targetFile = map[string]string{
 	"leastPendingScore":   "GenPeers",
 	"zeroScore":           "GenPeers",
 	// C20: errors.go value mappings, polymorphic in the model's error type
-	"GetContextError":       "GenErrors",
-	"NewWrappedSystemError": "GenErrors",
-	"GetSystemErrorMessage": "GenErrors",
-	"isEphemeralHostPort":   "GenHandshake",
-	"mexCheckFrame":         "GenMex",
-	"hcEnabled":             "GenHealthIdle",
-	"idleCheckOk":           "GenHealthIdle",
+	"GetContextError":         "GenErrors",
+	"NewWrappedSystemError":   "GenErrors",
+	"GetSystemErrorMessage":   "GenErrors",
+	"isEphemeralHostPort":     "GenHandshake",
+	"mexCheckFrame":           "GenMex",
+	"hcEnabled":               "GenHealthIdle",
+	"idleCheckOk":             "GenHealthIdle",
+	"validateRelayMaxTimeout": "GenTTL",
+	"lazyCallReqTTL":          "GenTTL",
 }
 
 // varFields: constant fields of package-level composite-literal variables.
@@ -146,4 +148,20 @@ var targets = []Target{
 	// fragmenting_writer.go / fragmenting_reader.go: state predicates used by every operation
 	{Func: "fragmentingWriterState.isWritingArgument", Out: "isWritingArgument", Params: "(s : Z)", Ret: "bool"},
 	{Func: "fragmentingReadState.isReadingArgument", Out: "isReadingArgument", Params: "(s : Z)", Ret: "bool"},
+	// C14: errors.go context-error mapping (cerr: 0 nil, 1 context.DeadlineExceeded, 2 context.Canceled,
+	// other values = any other error, passed through as 256+cerr), relay ttl arithmetic
+	{Func: "GetContextError", Out: "GetContextError", Params: "(cerr : Z)", Ret: "Z",
+		Hints: map[string]string{
+			"err == context.DeadlineExceeded": "(cerr =? 1)",
+			"err == context.Canceled":         "(cerr =? 2)",
+			"ErrTimeout":                      "c_ErrCodeTimeout",
+			"ErrRequestCancelled":             "c_ErrCodeCancelled",
+			"err":                             "(256 + cerr)",
+		}},
+	{Func: "validateRelayMaxTimeout", Out: "validateRelayMaxTimeout", Params: "(d : Z)", Ret: "Z",
+		SHints: map[string]string{
+			"logger.WithFields(\n\tLogField{\"configuredMaxTimeout\", d},\n\tLogField{\"defaultMaxTimeout\", _defaultRelayMaxTimeout},\n).Warn(\"Configured RelayMaxTimeout is invalid, using default instead.\")": "",
+		}},
+	{Func: "lazyCallReq.TTL", Out: "lazyCallReqTTL", Params: "(ttl_field : Z)", Ret: "Z",
+		Hints: map[string]string{"binary.BigEndian.Uint32(f.Payload[_ttlIndex : _ttlIndex+_ttlLen])": "ttl_field"}},
 }
